@@ -1,12 +1,14 @@
 package main
 
 import (
-	"runtime/pprof"
-	"time"
+	"encoding/json"
 	"flag"
 	"fmt"
 	"os"
+	"runtime"
+	"runtime/pprof"
 	"strings"
+	"time"
 
 	"golang.org/x/tools/go/ssa"
 )
@@ -43,6 +45,7 @@ func main() {
 	contracts := flag.String("contracts", "/verif/contracts", "overlay directory")
 	timeout := flag.Int("timeout", 10000, "per-obligation solver timeout (ms)")
 	verbose := flag.Bool("v", false, "verbose")
+	verifDir := flag.String("verif", "/verif", "verification directory (evidence, replays, known findings)")
 	flag.Parse()
 	args := flag.Args()
 	if len(args) == 0 {
@@ -50,6 +53,7 @@ func main() {
 		os.Exit(2)
 	}
 	defer cleanupScratch()
+	go watchdog(envInt("IKEVERIF_MAXHEAP_MB", 12000), envInt("IKEVERIF_MAXSEC", 900))
 	if pf := os.Getenv("IKEVERIF_PROF"); pf != "" {
 		f, _ := os.Create(pf)
 		pprof.StartCPUProfile(f)
@@ -79,9 +83,65 @@ func main() {
 				fmt.Println("no such function:", spec)
 				continue
 			}
-			r := P.VerifyFunction(fn, nil, opts)
+			cfg := newRunCfg()
+			P.applyLemmaConfig(fn, cfg)
+			r := P.VerifyFunction(fn, cfg, opts)
 			r.Print(*verbose)
 		}
+	case "lemma":
+		// lemma <pkgpath.fn> <out.json>
+		spec := args[1]
+		i := strings.LastIndex(spec, ".")
+		fn := P.findFunc(spec[:i], spec[i+1:])
+		if fn == nil {
+			fmt.Println("no such lemma:", spec)
+			os.Exit(3)
+		}
+		lj := runLemma(P, fn, opts, false)
+		b, _ := json.MarshalIndent(lj, "", " ")
+		os.WriteFile(args[2], b, 0o644)
+	case "concretize":
+		// concretize <pkgpath.fn> <obligation> <out.json>
+		spec := args[1]
+		i := strings.LastIndex(spec, ".")
+		fn := P.findFunc(spec[:i], spec[i+1:])
+		if fn == nil {
+			fmt.Println("no such lemma:", spec)
+			os.Exit(3)
+		}
+		rf := &ReplayFile{Obligation: baseName(args[2]), Lemma: fn.Name(), Package: fn.Pkg.Pkg.Path()}
+		ra, k, out := P.concretize(fn, args[2], opts)
+		if ra != nil || (len(fn.Params) == 0 && out != "") {
+			rf.Args, rf.Unrolled = ra, k
+			P.RunReplay(rf)
+		} else {
+			rf.Status = "no-failing-input-found"
+			rf.Note = "no parameter assignment reaching the violated obligation within 3 loop iterations was found"
+		}
+		b, _ := json.MarshalIndent(rf, "", " ")
+		os.WriteFile(args[3], b, 0o644)
+	case "replay":
+		b, err := os.ReadFile(args[1])
+		if err != nil {
+			fmt.Println(err)
+			os.Exit(2)
+		}
+		var rf ReplayFile
+		json.Unmarshal(b, &rf)
+		if rf.Lemma == "" {
+			fmt.Println("replay file carries no input (", rf.Status, "):", rf.Note)
+			fmt.Println(rf.SolverOutput)
+			os.Exit(1)
+		}
+		P.RunReplay(&rf)
+		fmt.Printf("replay %s: %s %s\n", rf.Obligation, rf.Status, rf.Observed)
+		if rf.Status == "confirmed" {
+			os.Exit(1)
+		}
+	case "check":
+		code := checkProperty(P, *verifDir, args[1], args[2], opts)
+		cleanupScratch()
+		os.Exit(code)
 	case "dump":
 		for _, spec := range args[1:] {
 			if fn := findFunction(P, spec); fn != nil {
@@ -101,4 +161,20 @@ func envInt(name string, def int) int {
 		}
 	}
 	return def
+}
+
+// watchdog ends a run that outgrows its budget (a query that needs this much is
+// not one to be claimed).
+func watchdog(maxMB, maxSec int) {
+	t0 := time.Now()
+	for {
+		time.Sleep(500 * time.Millisecond)
+		var ms runtime.MemStats
+		runtime.ReadMemStats(&ms)
+		if int(ms.HeapAlloc>>20) > maxMB || int(time.Since(t0).Seconds()) > maxSec {
+			fmt.Fprintf(os.Stderr, "ikeverif: budget exceeded (heap %d MB, %ds)\n", ms.HeapAlloc>>20, int(time.Since(t0).Seconds()))
+			cleanupScratch()
+			os.Exit(4)
+		}
+	}
 }
